@@ -161,6 +161,77 @@ func DW() int {
 	}
 }
 
+// the same rendez-vous over channels that BELONG TO THE DEFINITIONS (package variables): a goroutine of
+// a cancelled evaluation that stays parked on one of them takes the value of the next use
+var gcr = make(chan int)
+
+var gcs = make(chan int)
+
+var gcsr = make(chan int, 1)
+
+var gc2 = make(chan int)
+
+var gcg = make(chan int)
+
+var gcl = make(chan int)
+
+var gcd = make(chan int)
+
+func GC() int {
+	go func() {
+		host.Wait()
+		gcr <- 42
+	}()
+	v := <-gcr
+	return v + 1
+}
+
+func GSend() int {
+	go func() {
+		host.Wait()
+		v := <-gcs
+		gcsr <- v
+	}()
+	gcs <- 42
+	return <-gcsr + 1
+}
+
+func GRecv2() int {
+	go func() {
+		host.Wait()
+		gc2 <- 42
+	}()
+	v, ok := <-gc2
+	if !ok {
+		return -1
+	}
+	return v + 1
+}
+
+func GRange() int {
+	go func() {
+		host.Wait()
+		gcg <- 42
+	}()
+	for v := range gcg {
+		return v + 1
+	}
+	return -1
+}
+
+func GSel() int {
+	go func() {
+		host.Wait()
+		gcl <- 42
+	}()
+	select {
+	case v := <-gcl:
+		return v + 1
+	case v := <-gcd:
+		return v
+	}
+}
+
 // bodies without channels: mutex and WaitGroup, calls of other definitions, a function literal
 // created and called inside the call
 func MU() int {
@@ -216,13 +287,13 @@ func ML() int {
 `
 
 var c10expr = map[string]string{"named": "F(2)", "method": "T0.M(2)", "closvar": "Clo(2)", "methval": "MV(2)", "chanfn": "CC()",
-	"chan-send": "CSend()", "chan-recv2": "CRecv2()", "chan-range": "CRange()", "chan-select": "CSel()", "chan-defer-mutex": "DM()", "chan-defer-wg": "DW()", "mutex": "MU()", "callsother": "CO()", "mkclosure": "MK()",
+	"chan-send": "CSend()", "chan-recv2": "CRecv2()", "chan-range": "CRange()", "chan-select": "CSel()", "chan-defer-mutex": "DM()", "chan-defer-wg": "DW()", "chan-g-recv": "GC()", "chan-g-send": "GSend()", "chan-g-recv2": "GRecv2()", "chan-g-range": "GRange()", "chan-g-select": "GSel()", "mutex": "MU()", "callsother": "CO()", "mkclosure": "MK()",
 	"fv-arg": "FA()", "fv-var": "FV()", "fv-ret": "FR()", "fv-method": "ML()"}
 var c10name = map[string]string{"named": "F", "method": "T0.M", "closvar": "Clo", "methval": "MV", "chanfn": "CC",
-	"chan-send": "CSend", "chan-recv2": "CRecv2", "chan-range": "CRange", "chan-select": "CSel", "chan-defer-mutex": "DM", "chan-defer-wg": "DW", "mutex": "MU", "callsother": "CO", "mkclosure": "MK",
+	"chan-send": "CSend", "chan-recv2": "CRecv2", "chan-range": "CRange", "chan-select": "CSel", "chan-defer-mutex": "DM", "chan-defer-wg": "DW", "chan-g-recv": "GC", "chan-g-send": "GSend", "chan-g-recv2": "GRecv2", "chan-g-range": "GRange", "chan-g-select": "GSel", "mutex": "MU", "callsother": "CO", "mkclosure": "MK",
 	"fv-arg": "FA", "fv-var": "FV", "fv-ret": "FR", "fv-method": "ML"}
 var c10want = map[string]string{"named": "15", "method": "7", "closvar": "8", "methval": "7", "chanfn": "43",
-	"chan-send": "43", "chan-recv2": "43", "chan-range": "43", "chan-select": "43", "chan-defer-mutex": "43", "chan-defer-wg": "43", "mutex": "43", "callsother": "21", "mkclosure": "42",
+	"chan-send": "43", "chan-recv2": "43", "chan-range": "43", "chan-select": "43", "chan-defer-mutex": "43", "chan-defer-wg": "43", "chan-g-recv": "43", "chan-g-send": "43", "chan-g-recv2": "43", "chan-g-range": "43", "chan-g-select": "43", "mutex": "43", "callsother": "21", "mkclosure": "42",
 	"fv-arg": "42", "fv-var": "42", "fv-ret": "42", "fv-method": "42"}
 
 // kinds whose body goes through a blocking channel construct (Y: Tick; Block; Tick, like CC)
@@ -280,8 +351,18 @@ func c10runHist(j c09job) (res c09res) {
 	before := c09ids()
 	ip := c09newInterp(nil)
 	bg := context.Background()
-	if _, err := ip.EvalWithContext(bg, c10defs); err != nil {
-		res.Err = "definitions: " + err.Error()
+	// WHEN the definitions are compiled: through EvalWithContext, or ("context-virgin" interpreter) by a
+	// plain Eval before the interpreter's first *WithContext call, as an embedding does at start-up; the
+	// reference uses below are plain Evals and host calls, so the first *WithContext call of a virgin
+	// session is made by the history
+	var derr error
+	if j.Virgin {
+		_, derr = ip.Eval(c10defs)
+	} else {
+		_, derr = ip.EvalWithContext(bg, c10defs)
+	}
+	if derr != nil {
+		res.Err = "definitions: " + derr.Error()
 		return
 	}
 	// function values held by the host, obtained before anything is cancelled
@@ -318,6 +399,7 @@ func c10runHist(j c09job) (res c09res) {
 		}
 	}
 	nchan := 0
+	var parked []string // virgin sessions: goroutines of cancelled evaluations that never left (the later uses judge the damage)
 	gen := uint64(0) // the interpreter's run id: stop() is called once per cancelled evaluation
 	for _, ev := range j.Hist {
 		switch ev.Op {
@@ -370,7 +452,7 @@ func c10runHist(j c09job) (res c09res) {
 				return
 			}
 		case "cancel":
-			what, err := c10cancel(ip, ev, &nchan, &gen, before)
+			what, err := c10cancel(ip, ev, &nchan, &gen, before, j.Virgin, &parked)
 			if err != "" {
 				res.Err = err
 				res.Runaway = strings.Contains(err, "still alive") // the worker is replaced
@@ -383,13 +465,17 @@ func c10runHist(j c09job) (res c09res) {
 	if left, _, _, _ := c09settle(before, c09ExitBound, nil); len(left) > 0 {
 		res.Leftover = len(left)
 		res.LeftStacks = c09short(left[0].stack)
+	} else if len(parked) > 0 {
+		res.Leftover = len(parked)
+		res.LeftStacks = "goroutine of a cancelled evaluation, parked since the cancellation: " + parked[0]
+		res.Runaway = true // they stay in this process: the worker is replaced
 	}
 	return
 }
 
 // c10cancel performs one cancelled evaluation and reports what happened (for an expired context:
 // whether the evaluation ran all the same).
-func c10cancel(ip *interp.Interpreter, ev c10ev, nchan *int, gen *uint64, before map[uint64]bool) (what, errs string) {
+func c10cancel(ip *interp.Interpreter, ev c10ev, nchan *int, gen *uint64, before map[uint64]bool, tolerate bool, parked *[]string) (what, errs string) {
 	what = ev.What
 	k := ev.K
 	var src string
@@ -526,7 +612,16 @@ func c10cancel(ip *interp.Interpreter, ev c10ev, nchan *int, gen *uint64, before
 		}
 		return n > c09RunawayOps
 	}
-	if left, _, _, _ := c09settle(before, c09ExitBound, runaway); len(left) > 0 {
+	if left, _, _, timedOut := c09settle(before, c09ExitBound, runaway); len(left) > 0 {
+		if tolerate && !timedOut && !runaway() {
+			// all of them wait (in a channel operation): the history goes on and the uses of the
+			// definitions tell whether the parked goroutines do harm; reported at the end in any case
+			for _, g := range left {
+				before[g.id] = true
+				*parked = append(*parked, c09short(g.stack))
+			}
+			return what, ""
+		}
 		return what, "goroutines of the cancelled evaluation are still alive: " + c09short(left[0].stack)
 	}
 	return what, ""
@@ -576,7 +671,8 @@ func (s *c10state) region(ev c10ev) string {
 			return "closure-after-cancel"
 		}
 		return ""
-	case "chanfn", "chan-send", "chan-recv2", "chan-range", "chan-select", "chan-defer-mutex", "chan-defer-wg":
+	case "chanfn", "chan-send", "chan-recv2", "chan-range", "chan-select", "chan-defer-mutex", "chan-defer-wg",
+		"chan-g-recv", "chan-g-send", "chan-g-recv2", "chan-g-range", "chan-g-select":
 		if host {
 			if !s.sinceExec {
 				return "hostheld-between"
@@ -598,9 +694,12 @@ func (s *c10state) region(ev c10ev) string {
 	}
 }
 
-func c10gen(r *rng, stream string, maxLen int) []c10ev {
-	kinds := []string{"named", "method", "closvar", "methval", "chanfn", "chan-send", "chan-recv2", "chan-range", "chan-select", "chan-defer-mutex", "chan-defer-wg", "mutex", "callsother", "mkclosure", "fv-arg", "fv-var", "fv-ret", "fv-method"}
-	chans := []string{"chanfn", "chan-send", "chan-recv2", "chan-range", "chan-select", "chan-defer-mutex", "chan-defer-wg"}
+func c10gen(r *rng, stream string, maxLen int, virgin bool) []c10ev {
+	kinds := []string{"named", "method", "closvar", "methval", "chanfn", "chan-send", "chan-recv2", "chan-range", "chan-select", "chan-defer-mutex", "chan-defer-wg", "chan-g-recv", "chan-g-send", "chan-g-recv2", "chan-g-range", "chan-g-select", "mutex", "callsother", "mkclosure", "fv-arg", "fv-var", "fv-ret", "fv-method"}
+	chans := c10chanKinds
+	if virgin {
+		chans = c10virginOK // the others lie in region virgin-nocancel (corpus cells)
+	}
 	vias := []string{"eval", "evalctx", "host-eval", "host-sym"}
 	cancels := []string{"busy", "busy", "blocked", "expired", "in-def", "in-def"}
 	st := &c10state{}
@@ -629,6 +728,11 @@ func c10gen(r *rng, stream string, maxLen int) []c10ev {
 			if r.bool() {
 				ev.Entry = "exec" // Compile + ExecuteWithContext instead of EvalWithContext
 			}
+			if virgin && ev.What == "blocked" {
+				// Compile before the interpreter's first *WithContext call generates the receive of the
+				// cancelled source itself without cancellation (C09-nocancel-gen, judged by C09)
+				ev.Entry = ""
+			}
 			if ev.What == "expired" && stream == "" && r.chance(50) {
 				continue
 			}
@@ -641,9 +745,26 @@ func c10gen(r *rng, stream string, maxLen int) []c10ev {
 	return h
 }
 
+var c10chanKinds = []string{"chanfn", "chan-send", "chan-recv2", "chan-range", "chan-select", "chan-defer-mutex", "chan-defer-wg", "chan-g-recv", "chan-g-send", "chan-g-recv2", "chan-g-range", "chan-g-select"}
+
+// constructs that select on the cancellation channel however their definition was compiled; send,
+// receive and two-value receive compiled before the interpreter's first *WithContext call never do
+// (finding C09-nocancel-gen), which for C10 means: their parked goroutine keeps the mutex (DM) or takes
+// the value of the next use (definition-owned channels): region virgin-nocancel
+var c10virginOK = []string{"chan-range", "chan-select", "chan-defer-wg", "chan-g-range", "chan-g-select"}
+
+func c10in(l []string, x string) bool {
+	for _, y := range l {
+		if x == y {
+			return true
+		}
+	}
+	return false
+}
+
 func c10coq(h []c10ev) string {
 	k := map[string]string{"named": "KNamed", "method": "KMethod", "closvar": "KClosVar", "methval": "KMethVal", "chanfn": "KChanFn",
-		"chan-send": "KChanFn", "chan-recv2": "KChanFn", "chan-range": "KChanFn", "chan-select": "KChanFn", "chan-defer-mutex": "KChanFn", "chan-defer-wg": "KChanFn", "mutex": "KNamed", "callsother": "KNamed", "mkclosure": "KNamed",
+		"chan-send": "KChanFn", "chan-recv2": "KChanFn", "chan-range": "KChanFn", "chan-select": "KChanFn", "chan-defer-mutex": "KChanFn", "chan-defer-wg": "KChanFn", "chan-g-recv": "KChanFn", "chan-g-send": "KChanFn", "chan-g-recv2": "KChanFn", "chan-g-range": "KChanFn", "chan-g-select": "KChanFn", "mutex": "KNamed", "callsother": "KNamed", "mkclosure": "KNamed",
 		"fv-arg": "KNamed", "fv-var": "KNamed", "fv-ret": "KNamed", "fv-method": "KNamed"}
 	v := map[string]string{"eval": "VEval", "evalctx": "VEvalCtx", "host-eval": "VHost", "host-sym": "VHost"}
 	c := map[string]string{"busy": "CBusy", "blocked": "CBlocked", "expired-ran": "CExpRan", "expired-not": "CExpNot", "in-def": "CInDef"}
@@ -686,15 +807,17 @@ func runC10(args []string) error {
 		stream string
 		h      []c10ev
 		warm   bool
+		virgin bool
 	}
 	var jobs []c09job
 	metas := map[int]meta{}
 	id := 0
-	addw := func(stream string, h []c10ev, warm bool) {
+	addv := func(stream string, h []c10ev, warm, virgin bool) {
 		id++
-		jobs = append(jobs, c09job{ID: id, Kind: "hist", Hist: h, Warm: warm})
-		metas[id] = meta{stream, h, warm}
+		jobs = append(jobs, c09job{ID: id, Kind: "hist", Hist: h, Warm: warm, Virgin: virgin})
+		metas[id] = meta{stream, h, warm, virgin}
 	}
+	addw := func(stream string, h []c10ev, warm bool) { addv(stream, h, warm, false) }
 	add := func(stream string, h []c10ev) { addw(stream, h, id%2 == 1) }
 	// the witnesses of the _refuted theorems, replayed
 	use := func(k, v string) c10ev { return c10ev{Op: "use", Kind: k, Via: v} }
@@ -704,18 +827,36 @@ func runC10(args []string) error {
 	add("plain-eval-chan", []c10ev{use("chanfn", "eval"), busy, use("chanfn", "eval"), use("chanfn", "evalctx"), use("chanfn", "eval")})
 	// corpus: a definition with a blocking construct whose FIRST execution happens inside the evaluation that
 	// is cancelled (cold session), then used again; and the same after a first normal execution (warm)
-	for _, k := range []string{"chanfn", "chan-send", "chan-recv2", "chan-range", "chan-select", "chan-defer-mutex", "chan-defer-wg"} {
+	// ... crossed with WHEN the definitions were compiled: through EvalWithContext, or by a plain Eval on a
+	// context-virgin interpreter (the cancelled evaluation is then the interpreter's first *WithContext call)
+	for _, k := range c10chanKinds {
 		indef := c10ev{Op: "cancel", What: "in-def", Kind: k}
-		for _, warm := range []bool{false, true} {
-			addw("", []c10ev{indef, use(k, "evalctx"), use("named", "eval"), use(k, "evalctx"), busy, use(k, "evalctx")}, warm)
+		for _, virgin := range []bool{false, true} {
+			stream := ""
+			if virgin && !c10in(c10virginOK, k) {
+				stream = "virgin-nocancel"
+			}
+			for _, warm := range []bool{false, true} {
+				if stream != "" && warm {
+					continue
+				}
+				for _, entry := range []string{"", "exec"} {
+					if stream != "" && entry != "" {
+						continue
+					}
+					indef.Entry = entry
+					addv(stream, []c10ev{indef, use(k, "evalctx"), use("named", "eval"), use(k, "evalctx"), busy, use(k, "evalctx")}, warm, virgin)
+				}
+			}
 		}
 	}
 	for i := 0; i < nMain; i++ {
-		add("", c10gen(r.fork(), "", maxLen))
+		virgin := i%2 == 1
+		addv("", c10gen(r.fork(), "", maxLen, virgin), i%4 < 2, virgin)
 	}
 	for _, reg := range []string{"closure-after-cancel", "hostheld-between", "plain-eval-chan"} {
 		for i := 0; i < nReg; i++ {
-			add(reg, c10gen(r.fork(), reg, maxLen))
+			add(reg, c10gen(r.fork(), reg, maxLen, false))
 		}
 	}
 	t0 := time.Now()
@@ -739,13 +880,18 @@ func runC10(args []string) error {
 			continue
 		}
 		in := map[string]any{"definitions": "F, T.M, T0, Clo (function literal), MV (method value), CC CSend CRecv2 CRange CSel (rendez-vous through receive, send, two-value receive, range, select), DM DW (the same inside a section guarded by a mutex / counted by a WaitGroup and released by a deferred call), MU (mutex, WaitGroup), CO (calls F and T0.M), MK (creates and calls a function literal); host holds Eval(name) and Symbols values",
-			"session": map[bool]string{true: "warm: every definition executed once before the history", false: "cold: the definitions with a blocking construct are first executed by the history"}[metas[i].warm], "history": res.HistEvents}
+			"session": map[bool]string{true: "warm: every definition executed once before the history", false: "cold: the definitions with a blocking construct are first executed by the history"}[metas[i].warm],
+			"definitions_compiled": map[bool]string{true: "by a plain Eval on a new interpreter (before its first *WithContext call)", false: "through EvalWithContext"}[m.virgin], "history": res.HistEvents}
 		if res.Err != "" {
 			in["history_generated"] = m.h
 		}
 		sm.Evaluations++
 		if res.Err != "" {
-			sm.HarnessViolations = append(sm.HarnessViolations, refMismatch{ID: i, Region: "", Input: in, Impl: res.Err, Ref: "the history can be executed", Note: "harness-level failure"})
+			hreg := ""
+			if m.stream == "virgin-nocancel" {
+				hreg = m.stream
+			}
+			sm.HarnessViolations = append(sm.HarnessViolations, refMismatch{ID: i, Region: hreg, Input: in, Impl: res.Err, Ref: "the history can be executed", Note: "harness-level failure"})
 			continue
 		}
 		sm.CaseIndex[fmt.Sprint(i)] = in
@@ -781,6 +927,9 @@ func runC10(args []string) error {
 		if m.stream != "" {
 			sm.count("stream:" + m.stream)
 		}
+		if m.virgin {
+			sm.count("definitions-compiled-before-first-context")
+		}
 		if bad {
 			reg := m.stream
 			note := ""
@@ -790,7 +939,11 @@ func runC10(args []string) error {
 			sm.RefMismatches = append(sm.RefMismatches, refMismatch{ID: i, Region: reg, Input: in, Impl: res.Uses, Ref: "every use yields what it yielded before the first cancellation", Note: note})
 		}
 		if res.Leftover > 0 {
-			sm.HarnessViolations = append(sm.HarnessViolations, refMismatch{ID: i, Region: "", Input: in, Impl: "goroutines left at the end of the history: " + res.LeftStacks, Ref: "none"})
+			hreg := ""
+			if m.stream == "virgin-nocancel" {
+				hreg = m.stream
+			}
+			sm.HarnessViolations = append(sm.HarnessViolations, refMismatch{ID: i, Region: hreg, Input: in, Impl: "goroutines left at the end of the history: " + res.LeftStacks, Ref: "none"})
 		}
 	}
 	hdr := "From Verif Require Import Cancel.Model Cancel.Cases.\n"
